@@ -318,3 +318,7 @@ m('c13-interval-string-in-minutes', ['C13', 'C08'], 'streamz/core.py',
   "        interval = pd.Timedelta(interval).total_seconds()",
   "        interval = pd.Timedelta(interval).total_seconds() / 60",
   'time strings read in the wrong unit (only the string spelling of an interval is affected)')
+m('c15-buffer-drain-exits-without-upstreams', ['C15'], 'streamz/core.py',
+  "    @gen.coroutine\n    def cb(self):\n        while True:\n            x, metadata = yield self.queue.get()",
+  "    @gen.coroutine\n    def cb(self):\n        while self.upstreams:\n            x, metadata = yield self.queue.get()",
+  'the drain coroutine of buffer ends when the node has no upstream left: a buffer that is disconnected and reconnected is dead')
